@@ -517,6 +517,7 @@ type Contract struct {
 	AssignTags []string
 	HasAssigns bool
 	MayPanic bool
+	Joins    bool // returning from this function means every closure handed out before has finished (pool.Wait)
 	PanicTags []string
 	IsLemma  bool
 	ParamTypes []string
@@ -551,7 +552,7 @@ type SpecFile struct {
 }
 
 var clauseKeywords = map[string]bool{
-	"func": true, "lemma": true, "nopanic": true, "requires": true, "assume": true, "ensures": true, "ghost": true, "on": true, "effect": true,
+	"func": true, "lemma": true, "nopanic": true, "joins": true, "requires": true, "assume": true, "ensures": true, "ghost": true, "on": true, "effect": true,
 	"loop": true, "assigns": true, "havoc": true, "may-panic": true, "pure": true, "spec": true,
 	"abstract": true, "guarded": true, "no-return": true, "ensures-by": true, "guarded-cell": true, "freevars": true, "trusted": true, "axiom": true,
 }
@@ -971,6 +972,8 @@ func parseSpecFile(path string) (*SpecFile, error) {
 				for _, t := range tags {
 					cur.Props[t] = true
 				}
+			case "joins":
+				cur.Joins = true
 			case "may-panic":
 				cur.MayPanic = true
 			case "no-return":
